@@ -4,7 +4,7 @@
 # (never touches /repo's working tree). Output/evidence go to /var/tmp/mout-<name>.
 name=$1; prop=$2; shift 2
 wt=/var/tmp/mw-$name-$$
-out=/var/tmp/mout-$name
+out=${MOUT:-/var/tmp/mout-$name}
 rm -rf $wt $out; mkdir -p $out
 git -C /repo worktree prune
 git -C /repo worktree add -q --detach $wt HEAD || exit 9
